@@ -680,8 +680,10 @@ func (e *ArithmeticExpression) Evaluate(ctx *Context, input system.Collection) (
 	rightPrimitive = system.Normalize(rightPrimitive, leftPrimitive)
 
 	result, err := e.Op(leftPrimitive, rightPrimitive)
-	if errors.Is(err, system.ErrIntOverflow) {
-		return system.Collection{}, nil // "Operations that cause arithmetic overflow or underflow will result in empty ( { } )".
+	if errors.Is(err, system.ErrIntOverflow) || errors.Is(err, system.ErrDivideByZero) {
+		// "Operations that cause arithmetic overflow or underflow will result in empty ( { } )",
+		// and so does division by zero.
+		return system.Collection{}, nil
 	}
 	if err != nil {
 		return nil, err
